@@ -2,6 +2,6 @@
 roughly 40-70 s of wall clock.  They multiply the per-sub-check `quick` case counts written in the
 property modules (enumerated sub-checks are not scaled).  Budgets stay case counts, never time limits."""
 QUICK_SCALE = {
-    "C01": 6, "C02": 4, "C03": 2.5, "C04": 2, "C05": 4, "C06": 2.5, "C07": 3, "C08": 1.5, "C09": 2, "C10": 1,
-    "C11": 3, "C12": 4, "C13": 4, "C14": 2, "C15": 2.5, "C16": 4, "C17": 4, "C18": 4, "C19": 3, "C20": 5,
+    "C01": 12, "C02": 6, "C03": 4, "C04": 2.5, "C05": 6, "C06": 2.5, "C07": 5, "C08": 2, "C09": 2, "C10": 1,
+    "C11": 6, "C12": 8, "C13": 5, "C14": 2.5, "C15": 2.5, "C16": 6, "C17": 6, "C18": 5, "C19": 4, "C20": 8,
 }
